@@ -39,7 +39,9 @@ CONSTANTS
     TopForms,     \* how top takes names from mid; "absent" = no top module
     ClientForms,  \* how the client takes names from the outermost library module
     Variants,     \* extra shape of the client's imports: "plain","dup","infunc","unused","stacked","late","twostars"
-    Pkgs,         \* subset of {"flat", "pkgabs", "pkgrel", "subabs", "subrel"}
+    Pkgs,         \* subset of {"flat", "pkgabs", "pkgrel", "subabs", "subrel", "flatshadow", "pkgshadow"}
+                  \* (the shadow layouts: mid is a PACKAGE and a dead module file of the same name lies next to it;
+                  \*  the import system takes the package, so resolution is that of "flat" / "pkgabs")
     MaxUses       \* the client references 1..MaxUses names
 
 Mod(m) == [m |-> m, n |-> "<module>"]
@@ -99,9 +101,9 @@ Cases == [ball : BaseAlls, mid : MidForms, top : TopForms, client : ClientForms,
           uses : {u \in SUBSET {"alpha", "beta", "gamma", "delta", "al", "bl", "first", "zeta", "c_first", "c_alpha", "c_beta", "c_gamma", "c_delta", "c_al", "c_bl"} :
                       u # {} /\ Cardinality(u) <= MaxUses}]
 Sensible(c) == /\ c.uses \subseteq Names(Reachable(c))
-               /\ (c.pkg # "flat" => c.mid # "module")         \* `import pkg.impl` inside the package __init__ is a different story
+               /\ (c.pkg \notin {"flat", "flatshadow"} => c.mid # "module")         \* `import pkg.impl` inside the package __init__ is a different story
                /\ (c.variant = "twostars" => c.client = "star" /\ "beta" \in c.uses)
-               /\ (c.variant = "basestar" => c.client = "star" /\ c.pkg = "flat" /\ "alpha" \in c.uses)
+               /\ (c.variant = "basestar" => c.client = "star" /\ c.pkg \in {"flat", "flatshadow"} /\ "alpha" \in c.uses)
                /\ (c.variant = "unused" => c.client \in {"from", "alias"} /\ Names(Reachable(c)) \ c.uses # {})
 
 Resolve(c) == {p \in Reachable(c) : p[1] \in c.uses}
@@ -145,7 +147,11 @@ StdCatalogue == {
     [id |-> "from_pickle_dumps",   bind |-> "dump",        obj |-> "pickle.dumps"],
     [id |-> "from_ospath_join",    bind |-> "join",        obj |-> "os.path.join"],
     [id |-> "from_shlex_join",     bind |-> "join",        obj |-> "shlex.join"],
-    [id |-> "import_pickle_as_json", bind |-> "json",      obj |-> "mod:pickle"] }
+    [id |-> "import_pickle_as_json", bind |-> "json",      obj |-> "mod:pickle"],
+    \* a module three levels down binds the ROOT package: used through the root only / through the middle package only
+    [id |-> "import_email_mime_root", bind |-> "email",    obj |-> "mod:email"],             \* import email.mime.text, email.message_from_string used
+    [id |-> "import_email_mime_mid",  bind |-> "email",    obj |-> "mod:email"],             \* import email.mime.text, email.mime.__name__ used
+    [id |-> "import_xml_dom_root",    bind |-> "xml",      obj |-> "mod:xml"] }              \* import xml.dom.minidom, xml.__name__ used
 CONSTANTS MaxStd, StdPlaces      \* StdPlaces: where the statements stand: "top", "infunc" (inside the using function), "mixed",
                                  \* or one of the Conditional places below
 
